@@ -11,8 +11,10 @@ import itertools
 from .. import common
 
 BOUNDS = {
-    "quick": [("ab\n", 8), ("a\né", 6)],
-    "thorough": [("ab\n", 9), ("a\né ", 7)],
+    # (alphabet, max length).  '\r', U+2028, '\x0b', '\x85' are ordinary characters for this property (line breaks are
+    # '\n' only), but str.splitlines() treats them as line boundaries - so they must be in some alphabet.
+    "quick": [("ab\n", 8), ("a\né", 6), ("a\n\r", 6), ("\n\u2028\x0b\x85", 5)],
+    "thorough": [("ab\n", 9), ("a\né ", 7), ("a\n\r", 8), ("a\n\u2028\x0b\x85\x1c", 6)],
 }
 
 
@@ -163,7 +165,7 @@ def run(tier: str) -> int:
         "fixed_witnesses_replayed": regress,
     }
     rep.assumptions = [
-        "line breaks are '\\n' only (the property's scope); '\\r', U+2028 etc. are not used",
+        "line breaks are '\\n' only (the property's scope); '\\r', U+2028, VT, NEL, FS appear in the alphabets as ordinary characters",
         "line_of() may or may not include the line's terminating newline (the property does not say)",
         "Span.lines() includes the line holding the end position when it exists (pest's LinesSpan does the same)",
         "texts longer than the bound and the 'sampled long texts' clause are not covered",
